@@ -39,11 +39,13 @@ RULE = (
     "resize: every 2-D shape (h,w) with extents 1..N x dtype {f32,f64} x payload {scalar, vector(3), series(2)} x every target with both "
     "extents <= source plus the integer multiples {1,2,3}^2, on the complete impulse basis + pair combinations (1,1),(2,-3); target given as "
     "shape (all data) and as reference image / fx,fy factors / keyword options (generic data). refine: same images x levels -3..3 "
-    "(integral, extent, coarsen(refine)=id). reduce: every 2-D (extents 1..N) and 3-D (extents 1..M) shape x origin {default,user} x dtype x payload x every axis by index and "
-    "by Cartesian name x {sum, average}. extrude: every 2-D shape x dtype x payload x num {1,2,3} x height {0.5,2}. superpose: shared grid: "
-    "every shape 1..S^2 x dtype x {scalar, series} x k=1..4 images x every cyclic impulse placement; offsets: k=1..4 images with shapes from "
-    "{(1,1),(2,3),(3,2)} x every voxel-aligned offset from O^2 for images 2..k x dtype. Non-trivial = the operation changes the grid or combines "
-    "more than one image (identity targets, level 0 and k=1 are trivial); distinct = distinct (kind, shape, dtype, payload, configuration)."
+    "(integral, extent, coarsen(refine)=id). extrude: same images x num {1,2,3} x height {0.5,2}. reduce: every 2-D (extents 1..N) and 3-D "
+    "(extents 1..M) shape x origin {default,user} x dtype x payload x every axis by matrix index and by Cartesian name x {sum, average}. "
+    "superpose: shared grid: every shape 1..S^2 x dtype x {scalar, series} x k=1..4 images x origin {default,user} x every cyclic impulse "
+    "placement; offsets: k=1..4 images, every tuple of shapes from {(1,1),(2,3),(3,2)} x every tuple of voxel-aligned offsets from O_k^2 for "
+    "images 2..k x dtype. emd-resize: shapes 1..E^2 x dtype x {scalar, series} x every resize target, EMD with the conservative Resize as "
+    "preprocessing. Non-trivial = the operation changes the grid or combines more than one image (identity targets, level 0 and k=1 are "
+    "trivial); distinct = distinct (kind, shape, dtype, payload, configuration)."
 )
 ASSUMPTIONS = [
     "all operations are linear in the data, so the impulse basis plus pair combinations decides them for every input of that shape",
@@ -55,7 +57,12 @@ ASSUMPTIONS = [
 N2 = {"quick": 6, "thorough": 9}  # 2-D extents
 N3 = {"quick": 3, "thorough": 4}  # 3-D extents (axis reduction)
 NS = {"quick": 4, "thorough": 5}  # shared-grid superposition extents
-OFFS = {"quick": [-2, 0, 1], "thorough": [-2, 0, 1, 3]}  # voxel offsets per axis
+NE = {"quick": 3, "thorough": 4}  # EMD with conservative resize as preprocessing
+# voxel offsets per axis of images 2..k relative to image 1, per number of images k
+OFFS = {
+    "quick": {1: [0], 2: [-2, 0, 1], 3: [-2, 0, 1], 4: [-2, 1]},
+    "thorough": {1: [0], 2: [-2, 0, 1, 3], 3: [-2, 0, 1, 3], 4: [-2, 0, 1, 3]},
+}
 SUP_SHAPES = [(1, 1), (2, 3), (3, 2)]
 PAYLOAD = {"scalar": (), "vector": (3,), "series": (2,)}
 DTYPES = ["float32", "float64"]
@@ -76,7 +83,8 @@ def describe(tier):
         "extrusion": {"num": [1, 2, 3], "height": [0.5, 2.0]},
         "superpose_shared_extents": [1, NS[tier]],
         "superpose_offset_shapes": SUP_SHAPES,
-        "superpose_offsets_per_axis": OFFS[tier],
+        "superpose_offsets_per_axis_by_k": OFFS[tier],
+        "emd_extents": [1, NE[tier]],
         "superpose_images": [1, 4],
     }
 
@@ -103,12 +111,17 @@ def cases(tier):
             for pl in ("scalar", "series"):
                 for k in (1, 2, 3, 4):
                     out.append({"kind": "superpose-shared", "shape": list(s), "dtype": dt, "payload": pl, "k": k})
+    ne = NE[tier]
+    for s in sorted(itertools.product(range(1, ne + 1), repeat=2), key=lambda s: (s[0] * s[1], s)):
+        for dt in DTYPES:
+            for pl in ("scalar", "series"):
+                out.append({"kind": "emd-resize", "shape": list(s), "dtype": dt, "payload": pl})
     out.append({"kind": "superpose-refusal", "shape": [2, 3], "dtype": "float64", "payload": "vector", "k": 2})
     for k in (1, 2, 3, 4):
         for shp in itertools.product(range(len(SUP_SHAPES)), repeat=k):
             for dt in DTYPES:
-                out.append({"kind": "superpose-offset", "shapes": [list(SUP_SHAPES[i]) for i in shp], "dtype": dt, "k": k, "offs": OFFS[tier]})
-    rank = {"resize": 0, "refine": 1, "extrude": 2, "reduce": 3, "superpose-shared": 4, "superpose-refusal": 5, "superpose-offset": 6}
+                out.append({"kind": "superpose-offset", "shapes": [list(SUP_SHAPES[i]) for i in shp], "dtype": dt, "k": k, "offs": OFFS[tier][k]})
+    rank = {"resize": 0, "refine": 1, "extrude": 2, "reduce": 3, "superpose-shared": 4, "superpose-refusal": 5, "superpose-offset": 6, "emd-resize": 7}
     out.sort(key=lambda c: (int(np.prod(c.get("shape", [9, 9, c.get("k", 0)]))), rank[c["kind"]]))  # stable: simplest first
     return out
 
@@ -229,6 +242,8 @@ def run_case(case, r):
         _run_superpose_refusal(case, r)
     elif kind == "superpose-offset":
         _run_superpose_offset(case, r)
+    elif kind == "emd-resize":
+        _run_emd(case, r)
     else:  # pragma: no cover
         raise AssertionError(kind)
 
@@ -301,6 +316,35 @@ def _run_resize(case, r):
     r.count("resize_cases_relerr_le_1e-6" if worst <= 1e-6 else "resize_cases_relerr_gt_1e-6")
 
 
+# ---- EMD with the conservative resize as preprocessing (measure/emd.py relies on the conserved sum)
+def _run_emd(case, r):
+    import darsia
+
+    shape, dt, pl = tuple(case["shape"]), np.dtype(case["dtype"]), case["payload"]
+    chk = _Once(r)
+    n = shape[0] * shape[1]
+    imp = _basis(shape, pl, dt)[:n]
+    for tgt in _targets(shape):
+        d = _direction(shape, tgt)
+        if d != "identity":
+            r.nontriv(("emd-resize", shape, str(dt), pl, tgt))
+        emd = darsia.EMD(darsia.Resize(shape=tgt, interpolation="inter_area", **{"resize conservative": True}))
+        cell = f"C11/emd-resize/{d}/{pl}"
+        dist = None
+        for i in range(n):
+            img_i = _make(imp[i].copy(), pl)
+            pre = emd._preprocess(img_i)
+            got, want = np.asarray(emd._sum(pre), dtype=np.float64), _ssum(imp[i], 2)
+            chk(got.shape == want.shape and bool(np.all(np.abs(got - want) <= 1e-5 * np.abs(want))), cell + "/sum", "the sum over the spatial entries seen by EMD after conservative preprocessing is the plain array sum of the input (per time slab)", target=tgt, data=imp[i], got=got, want=want)
+            j = (i + 1) % n
+            try:
+                dist = emd(img_i, _make(imp[j].copy(), pl))
+                chk(bool(np.all(np.isfinite(dist)) and np.all(np.asarray(dist) >= 0)), cell + "/compatible", "two images of equal mass stay comparable after conservative preprocessing", target=tgt, got=dist)
+            except AssertionError as e:
+                chk(False, cell + "/compatible", "two images of equal mass stay comparable after conservative preprocessing", target=tgt, i=i, j=j, exception=repr(e))
+        r.outcome(("emd", shape, str(dt), pl, tgt, np.round(np.asarray(dist, dtype=np.float64), 5).tolist()))
+
+
 # ---- uniform refinement / coarsening
 def _coarsen_class(shape, nlev):
     cur = list(shape)
@@ -340,7 +384,7 @@ def _run_refine(case, r):
             try:
                 out = darsia.uniform_refinement(img, lev)
             except Exception as e:  # no refusal is documented for any level / shape
-                chk(False, base, "uniform_refinement is usable for every shape and level of the quantifier", level=lev, exception=f"{type(e).__name__}: {e}")
+                chk(False, base + "/usable", "uniform_refinement is usable for every shape and level of the quantifier", level=lev, exception=f"{type(e).__name__}: {e}")
                 last = "raised"
                 break
             scale = _integral(np.abs(arr), dims, 2)
